@@ -1,0 +1,24 @@
+//! Scheduling points for deterministic simulation.
+//!
+//! Only compiled with the `verif-hooks` cargo feature. A test harness may
+//! install a callback which is invoked at named points inside the wait group
+//! so that it can decide which thread runs next. Without a callback (the
+//! default) every point is a no-op.
+
+use std::sync::RwLock;
+
+static HOOK: RwLock<Option<fn(&'static str)>> = RwLock::new(None);
+
+/// Installs (or removes) the process-wide scheduling-point callback.
+pub fn set_sched_hook(hook: Option<fn(&'static str)>) {
+    *HOOK.write().unwrap_or_else(std::sync::PoisonError::into_inner) = hook;
+}
+
+/// Invokes the installed callback, if any, with the name of the call site.
+#[inline]
+pub(crate) fn point(site: &'static str) {
+    let hook = *HOOK.read().unwrap_or_else(std::sync::PoisonError::into_inner);
+    if let Some(f) = hook {
+        f(site);
+    }
+}
